@@ -175,7 +175,7 @@ def c05_cases(tier, seed):
     cs += gens.g_pieces_attr_in_entity(2 if q else 3)
     cs += gens.g_pieces_attr_after(1 if q else 2)
     cs += [c for c in gens.g_entity_names() + gens.g_entity_value_chars() if "expect_attr" in c.meta]
-    cs += gens.g_dup_attr_wide(flags="c") + gens.g_many_small_expansions(flags="c")
+    cs += gens.g_dup_attr_wide(flags="c") + gens.g_many_small_expansions(flags="c") + gens.g_reserved_uri_values(flags="c")
     cs += gens.g_cst(seed, 800 if q else 6000, flags="nc", renderings=2, hoist=False)
     # attribute lists interleaved with declarations, 0..40 attributes
     rnd = random.Random(seed + 1)
@@ -212,7 +212,7 @@ def c06_cases(tier, seed):
     cs += gens.g_cst(seed, 600 if q else 6000, flags="nc", renderings=1)
     cs += gens.g_cst(seed + 5, 300 if q else 3000, flags="nc", renderings=2, hoist=True)
     cs += gens.g_ns_attr(flags="nc", sample=6000 if q else None, seed=seed)
-    cs += gens.g_prefix_out_of_scope(flags="c") + gens.g_ns_entity_sibling(flags="c")
+    cs += gens.g_prefix_out_of_scope(flags="c") + gens.g_ns_entity_sibling(flags="c") + [c for c in gens.g_reserved_uri_values(flags="c") if c.meta.get("wellformed")]
     # URIs supplied through references / entities
     d = "<!DOCTYPE r [<!ENTITY u 'urn:x'>]><r xmlns:p='&u;' xmlns='&#117;rn:y'><p:a/><b/></r>"
     cs.append(Case(d, "c", True, meta={"gen": "ns-uri-entity", "expect_content": [
@@ -577,7 +577,7 @@ def c09_cases(tier, seed):
     cs += gens.g_ent_fanout_attr_leaf([1, 2, 3, 4, 6, 10, 15, 16], [1, 2, 3, 4], flags="c")
     cs += gens.g_ent_chains(14, flags="c")
     cs += gens.g_ent_empty(flags="c") + gens.g_ent_charrefs_free(flags="c")
-    cs += gens.g_ent_many_decls(flags="c", dists=(256, 512) if q else (256, 512, 65536)) + gens.g_many_small_expansions(flags="c")
+    cs += gens.g_ent_many_decls(flags="c", dists=(256, 512) if q else (256, 512, 65536)) + gens.g_many_small_expansions(flags="c") + gens.g_ent_ladder(flags="c")
     cs += gens.g_ent_fanout_sep([2, 3, 4, 8, 15], [1, 2, 3, 6] if q else [1, 2, 3, 4, 6, 8], flags="c")
     cs += gens.g_ent_toplevel(1000 if q else 100000, flags="c")
     cs += gens.g_ent_random(seed, 1500 if q else 15000, flags="c")
@@ -693,6 +693,7 @@ def c14_cases(tier, seed):
     cs += [Case("<e>é</e>", "t", True), Case("a\r\nb\n\n中文\n", "t", True), Case("<r>\n  <a>é\n</b>", "t", True)]
     cs += [Case(c.data, "t", True, meta=c.meta) for c in gens.g_nonchar()]
     cs += gens.g_cdata_tricky_nonchar(flags="t")
+    cs += [Case(c.data, "t", True, meta=c.meta) for c in gens.g_entity_value_prefixes()]
     # text_pos_at inside characters whose continuation bytes are 0x80 / 0xBF
     cs += [Case("<e>р–À…😀\u07ff\uffff</e>".replace("\uffff", ""), "t", True, meta={"gen": "continuation-bytes"})]
     # something the internal subset cannot contain, behind various prefixes: the error is reported AT that construct
@@ -977,7 +978,7 @@ def c18_cases(tier, seed):
     cs += [Case(c.data, "ncb", True, meta=c.meta) for c in rnd.sample(more, min(len(more), 3000 if q else 20000))]
     more = gens.g_pieces_attr(3)
     cs += [Case(c.data, "ncb", True, meta=c.meta) for c in rnd.sample(more, min(len(more), 2000 if q else 8000))]
-    cs += gens.g_utf8_bytes(flags="ncb") + gens.g_cr_in_misc(flags="ncb")
+    cs += gens.g_utf8_bytes(flags="ncb") + gens.g_cr_in_misc(flags="ncb") + gens.g_borrow_after(flags="ncb")
     # fast-path families
     for body, borrowed in (("plain text", True), ("two\nlines\ttab", True), ("a&amp;b", False), ("a\rb", False), ("a\r\nb", False), ("é中", True), ("a&#65;", False)):
         cs.append(Case("<r>" + body + "</r>", "ncb", True, meta={"gen": "fast-text", "expect_borrowed_text": borrowed, "text_node": 2}))
